@@ -6,3 +6,4 @@ import SsqlVerif.Props.C08
 #print axioms C08.ontime_cover_from_arrival
 #print axioms C08.earliest_start_before_advance
 #print axioms C08.pass_done
+#print axioms C08.late_extension_coincides
